@@ -19,6 +19,8 @@ func init() {
 }
 
 func runC15(c *Ctx) {
+	c.Rule("O15.7", "each part of a step is rendered from its own template: the HTTP scenario templater's cache of parsed templates is keyed by the template text (see templateCacheRule) - a header named like a fixed part (url, body), or two scenario/step/part name triples that concatenate to the same string, must not be rendered from another part's template")
+	templateCacheRule(c, "O15.7", "components/providers/scenario/http/templater")
 	c.Rule("O15.1", "stop at first failing step: the step loop of shoot is a single range over the ammo's steps, and from the err != nil edge after shootStep no path reaches another shootStep")
 	c.Rule("O15.2", "a failed HTTP step is reported as failed: reportErr sets proto code 0 and the error (net code) on the step's sample before reporting it")
 	c.Rule("O15.3", "multiplicity and pauses: convertScenarioToAmmo appends the converted step exactly `count` times (for i := 0; i < count; i++), a `sleep(n)` item adds n ms to the last appended step (and needs one), the per-step pause comes from the second argument; ParseShootName takes count from args[0] and sleep from args[1]")
